@@ -63,6 +63,8 @@ def tlc_case(case):
 
 def run(chk):
     memoise_lut()
+    import numba
+    numba.set_num_threads(2)      # tiny arrays: thread fan-out only burns CPU here (C11 varies the thread count)
     rng = random.Random(chk.seed)
     tier = chk.tier
     cases = make_cases(rng, tier)
@@ -80,7 +82,7 @@ def run(chk):
     tcases = [tlc_case(c) for c in cases]
     dh.explore(chk, tcases, maxb, 2, 0, 'histories')
     hists = dh.generate(chk, tcases, maxb, 2, 0, 'histories')
-    if tier == 'quick':      # quick: subsample the compute placements deterministically, keep every split
+    if True:                 # subsample the compute placements deterministically (6 per split quick, 16 thorough), keep every split
         keep = []
         seen_split = {}
         r2 = random.Random(chk.seed + 1)
@@ -90,7 +92,7 @@ def run(chk):
             seen_split.setdefault(key, []).append(h)
         for (ci, split), hs in sorted(seen_split.items()):
             r2.shuffle(hs)
-            for h in hs[:6]:
+            for h in hs[:6 if tier == 'quick' else 16]:
                 keep.append((ci, h))
         hists = keep
     oneshot_cache = {}
